@@ -75,6 +75,22 @@ CHECKS = {
         technique="CFG + typestate abstract interpretation (path-sensitive on depleted flag / look-ahead byte), def-use, control dependence",
         design="4/C05",
     ),
+    "C06": dict(
+        category="other",
+        text="X1 failure-site ledger over the 64 functions of the decode core: all 70+ explicit failure sites (25 asserts, 19 "
+             "raises, 2 unbound names) and implicit-failure idioms from a closed list (next(genexp), subscripts of values / "
+             "_selectors / _type_maps / _list_size / selection / types_map / __args__, [..][i] on a built list, 2-target unpacking "
+             "of fields(T), iteration over an optional parameter) must be a raise of a documented class, caught locally or at "
+             "every call site, dead by its own guard, or discharged by a rule re-evaluated on the current tree from L "
+             "(C20 T1-T5, W1), the specialised traces (C03-R1, C01-F), the pump typestate (C10-T1) or call-site shapes; an "
+             "undischarged site is reported with its input dependence. X2 termination: acyclic type graph, messages and "
+             "byte-sized list elements consume >= 1 byte, only bounded data-driven loop forms, one pull per pump iteration.",
+        note="trusted: CPython ast; L (E1). Implicit failures outside the closed idiom list (e.g. a TypeError from an operator on "
+             "an unexpected object) are not excluded - no untyped-Python static analysis can. Open finding K2 is listed in "
+             "known_findings.json. Assumes the command_code argument is a TPM_CC member.",
+        technique="exception-escape / failure-site ledger with rule-based discharge over the call graph + termination obligations from the static layout model",
+        design="4/C06",
+    ),
     "C07": dict(
         category="other",
         text="Non-interference of the mode flag, decided on source: NI-1 classifies every read of abort_on_error in the "
